@@ -80,7 +80,12 @@ pub fn specs() -> Vec<PropSpec> {
             p.stages.push(Stage { engine: || Box::new(bsv_coll::plain::PlainEngine), quick_cases: 1_500_000, thorough_cases: 20_000_000 });
         }
         prop!("C17", Stage { engine: || Box::new(bsv_lock::LockEngine), quick_cases: 8_000_000, thorough_cases: 100_000_000 });
-        prop!("C19", Stage { engine: || Box::new(bsv_pool::PoolEngine), quick_cases: 12_000, thorough_cases: 150_000 });
+        prop!(
+            "C19",
+            Stage { engine: || Box::new(bsv_pool::PoolEngine), quick_cases: 12_000, thorough_cases: 150_000 },
+            // free-running threads (contention inside get / guard drop); each case spawns 2..5 threads
+            Stage { engine: || Box::new(bsv_pool::PoolStress), quick_cases: 600, thorough_cases: 8_000 }
+        );
         // C12: the real-arena half rides on engine A
         if let Some(p) = v.iter_mut().find(|p| p.id == "C12") {
             p.stages.push(arena!("C12", 300_000, 4_000_000));
